@@ -102,7 +102,7 @@ pub fn run_store(cfg: &StoreCfg) {
 }
 
 async fn run_cmds(cfg: &StoreCfg, mut real: SqliteStore, path: &str) {
-    let world = LogWorld::generate(&WorldParams { max_authors: 3, max_logs_per_author: 2, max_ops_per_log: 6, prune_num: 1, body_kinds: 4 });
+    let world = LogWorld::generate(&WorldParams { max_authors: 3, max_logs_per_author: 2, max_ops_per_log: 6, prune_num: 1, body_kinds: 4, min_ops_per_log: 0 });
     let ops: Vec<Op> = world.all_ops();
     let model = MemStore::new();
     let topics = [topic(0), topic(1)];
